@@ -402,9 +402,9 @@ def run(ctx):
     shared_class_state(ctx, 'R16.6', ['nbdime.prettyprint'] if ctx.tier == 'quick' else ['nbdime.'])
     tool_output_regexes_anchored(ctx, 'R16.7')
     from ..signatures import call_compat
-    call_compat(ctx, 'R16.8', ['nbdime.prettyprint', 'nbdime.nbshowapp', 'nbdime.nbdiffapp', 'nbdime.vcs.git.diffdriver'], 'rendering fails for the diffs/decisions that reach this arm')
+    call_compat(ctx, 'R16.8', ['nbdime.prettyprint', 'nbdime.nbshowapp', 'nbdime.nbdiffapp', 'nbdime.vcs.git.diffdriver'] if ctx.tier == 'quick' else ['nbdime.'], 'rendering fails for the diffs/decisions that reach this arm')
     from ..names import name_binding
-    name_binding(ctx, 'R16.9', ['nbdime.prettyprint', 'nbdime.nbshowapp', 'nbdime.nbdiffapp', 'nbdime.vcs.git.diffdriver'])
+    name_binding(ctx, 'R16.9', ['nbdime.prettyprint', 'nbdime.nbshowapp', 'nbdime.nbdiffapp', 'nbdime.vcs.git.diffdriver'] if ctx.tier == 'quick' else ['nbdime.'])
     from ..opfields import check_op_fields
     check_op_fields(ctx, 'R16.10', ['nbdime.prettyprint'])
     lexer_name_is_a_string(ctx, 'R16.11')
